@@ -197,7 +197,11 @@ ChildPlan World::OnSpawn(Kernel& kk, const std::string& cmd, bool console) {
   }
   if (!s.depfile.empty()) {
     std::string d = Dirname(s.depfile);
-    if (!d.empty() && !kk.Exists(d)) Report("C04", "missing_dir_or_rspfile", "directory of depfile " + s.depfile + " missing at start");
+    if (!d.empty() && !kk.Exists(d)) {
+      Report("C04", "missing_dir_or_rspfile", "directory of depfile " + s.depfile + " missing at start");
+      // (the depfile is named through $out in half of the manifests: a name that is not taken literally ends up elsewhere)
+      Report("C16", "rspfile_lifecycle", "the directory of depfile " + s.depfile + " does not exist when the command starts");
+    }
   }
   if (s.rsp) {
     std::string have;
